@@ -10,8 +10,9 @@ from ..pkg import PKG, Case, index_stubs, pack
 from ..report import Report
 from .c05 import norm
 
-TYPES = [None, "int", "str", "list[int]"]
-IMG = {"int": frozenset([("n", "Int", ())]), "str": frozenset([("n", "String", ())]), "list[int]": frozenset([("n", "List", (frozenset([("n", "Int", ())]),))])}
+TYPES = [None, "int", "str", "list[int]", "tuple[int, str]", "tuple[str, int]"]
+_I, _S = frozenset([("n", "Int", ())]), frozenset([("n", "String", ())])
+IMG = {"int": _I, "str": _S, "list[int]": frozenset([("n", "List", (_I,))]), "tuple[int, str]": frozenset([("n", "Tuple", (_I, _S))]), "tuple[str, int]": frozenset([("n", "Tuple", (_S, _I))])}
 STYLES = ["NUMPYDOC", "GOOGLE", "REST"]
 OWNERS = ["function", "method", "ctor"]
 
@@ -71,6 +72,8 @@ def render(cid: int, style: str, owner: str, params: list[tuple[str | None, str 
 
 def enumerate_cases(tier: str, style: str):
     pairs = list(itertools.product(TYPES, TYPES))
+    # a tuple annotation in result position means several results (C07): results use the non-tuple types only
+    rpairs = [(h, d) for h, d in pairs if not (h or "").startswith("tuple") and not (d or "").startswith("tuple")]
     # one parameter varied
     for owner in OWNERS:
         for p in pairs:
@@ -79,12 +82,12 @@ def enumerate_cases(tier: str, style: str):
             yield owner, [("int", "int"), p], []
     # one result varied (functions and methods)
     for owner in ("function", "method"):
-        for r in pairs:
+        for r in rpairs:
             if r == (None, None):
                 continue
             yield owner, [("int", None)], [r]
     if style == "NUMPYDOC":
-        for r1, r2 in itertools.product([x for x in pairs if x[0] is not None], repeat=2):
+        for r1, r2 in itertools.product([x for x in rpairs if x[0] is not None], repeat=2):
             if (r1[1] is None) != (r2[1] is None):
                 continue  # which result a lone documented entry belongs to is not defined by the statement
             if tier == "quick" and not (r1[0] == "int" or r2[0] == "int"):
@@ -105,7 +108,7 @@ def lab(owner, params, results) -> str:
 
 def run(rep: Report, tier: str, seed: int) -> None:
     rep.rule = (
-        "per parameter and per result: hint in {absent,int,str,list[int]} x docstring type in {absent,int,str,list[int]}; one varied parameter (alone and next to a fixed one) for function/method/constructor, one varied result, two results (numpydoc)"
+        "per parameter and per result: hint in {absent,int,str,list[int],tuple[int,str],tuple[str,int]} x docstring type in the same set; one varied parameter (alone and next to a fixed one) for function/method/constructor, one varied result, two results (numpydoc)"
         + ("; full product for two parameters x 5 result situations" if tier == "thorough" else "")
         + "; x 3 structured docstring styles; every case analysed under all four (preference, warning) pairs; distinct = distinct (style, case label)"
     )
@@ -192,7 +195,11 @@ def run(rep: Report, tier: str, seed: int) -> None:
                 n_ign = sum(1 for lvl, msg in obs_by[(tsp, "IGNORE")].logs if lvl == "WARNING" and msg.startswith("Different type hint and docstring types") and fid in msg)
                 want_n = sum(1 for h, dc in params if h and dc and h != dc) + sum(1 for h, dc in (results if owner != "ctor" else []) if h and dc and h != dc)
                 if n_warn != want_n:
-                    viol("warning-count", f"{'fewer' if n_warn < want_n else 'more'}:{tsp}:{owner}", {"expected_warnings": want_n, "logged": n_warn}, o)
+                    differing = [(h, dc) for h, dc in [*params, *(results if owner != "ctor" else [])] if h and dc and h != dc]
+                    n_oo = sum(1 for h, dc in differing if sorted(__import__("re").findall(r"\w+", h)) == sorted(__import__("re").findall(r"\w+", dc)))
+                    # exactly the order-only conflicts are missing -> the (known) order-insensitive comparison, nothing else
+                    order_only = n_oo > 0 and n_warn == want_n - n_oo
+                    viol("warning-count", f"{'fewer' if n_warn < want_n else 'more'}{':order-only' if order_only else ''}:{tsp}:{owner}", {"expected_warnings": want_n, "logged": n_warn}, o)
                 else:
                     rep.ok("warning-count")
                 if n_ign:
